@@ -156,7 +156,8 @@ func siteCases(o *hx.Out) {
 		enc(pk.VarInt(7), pk.VarInt(-2), msgv), enc(pk.VarInt(8), pk.VarInt(-1), msgv), enc(pk.VarInt(9), pk.VarInt(5), msgv), enc(pk.VarInt(9), pk.VarInt(6), msgv))
 	for id := 0; id < int(packetid.ClientboundPacketIDGuard); id++ {
 		pid := packetid.ClientboundPacketID(id)
-		if !c.VerifC08HasHandler(id) || len(play[pid]) == 0 || pid == packetid.ClientboundLevelChunkWithLight {
+		if !c.VerifC08HasHandler(id) || len(play[pid]) == 0 || pid == packetid.ClientboundLevelChunkWithLight || pid == packetid.ClientboundOpenScreen {
+			// (OpenScreen on a fresh client sizes a slice by a mutated field: run in the child process, alloc.go)
 			continue
 		}
 		siteFuzz(o, "play1."+pid.String(), play[pid], func(b []byte) error {
